@@ -49,7 +49,20 @@ extern "C" void __sanitizer_cov_trace_pc(void) {}  // basic-block callback of th
 
 namespace rec {
 
+// the same bindings compiled behind the system headers the example programs include (tools/build_bind_variant.sh); a history says
+// which compilation its calls go through (hdrs=0/1)
+extern "C" {
+extern const BindFormat *const S_bind_formats[];
+extern const unsigned S_bind_nformats;
+extern volatile unsigned S_bind_multi_eval;
+}
+static bool g_app_hdrs = false;
 static const BindFormat *find_format(const std::string &n) {
+    if (g_app_hdrs) {
+        for (unsigned i = 0; i < S_bind_nformats; i++)
+            if (n == S_bind_formats[i]->name) return S_bind_formats[i];
+        return nullptr;
+    }
     for (unsigned i = 0; i < bind_nformats; i++)
         if (n == bind_formats[i]->name) return bind_formats[i];
     return nullptr;
@@ -91,7 +104,7 @@ static std::string gen(const std::string &prop, uint64_t base, uint64_t idx, boo
     auto line = [&](const std::string &l) { o += l; o += '\n'; };
     int ntasks = (int)r.range(1, 4);
     line(strf("plan v1 engine=" REC_ENGINE_NAME " prop=%s seed=0x%llx idx=%llu", prop.c_str(), (unsigned long long)seed, (unsigned long long)idx));
-    line(strf("cfg tasks=%d gseed=0x%llx pages=%d", ntasks, (unsigned long long)r.next(), (int)(idx % 5 == 2)));
+    line(strf("cfg tasks=%d gseed=0x%llx pages=%d hdrs=%d", ntasks, (unsigned long long)r.next(), (int)(idx % 5 == 2), (int)(idx % 3 == 0)));
     struct B { int id, task; const BindFormat *f; int pay; };
     std::vector<B> bufs;
     int id = 0;
@@ -395,7 +408,7 @@ static void exec(const std::string &text, bool verbose) {
         if (line.empty() || line[0] == '#') continue;
         sim::KV kv(line);
         if (kv.op == "plan") { prop = kv.str("prop", "C05"); continue; }
-        if (kv.op == "cfg") { g_pages = kv.u64("pages", 0); gseed = kv.u64("gseed", 1); garbage.reseed(gseed); if (sim::g_shm) snprintf(sim::g_shm->context, sizeof sim::g_shm->context, "%s", prop.c_str()); continue; }
+        if (kv.op == "cfg") { g_pages = kv.u64("pages", 0); g_app_hdrs = kv.u64("hdrs", 0); gseed = kv.u64("gseed", 1); garbage.reseed(gseed); if (sim::g_shm) snprintf(sim::g_shm->context, sizeof sim::g_shm->context, "%s", prop.c_str()); continue; }
         if (kv.op == "buf") {
             Buf b;
             b.id = (int)kv.u64("id");
@@ -448,7 +461,7 @@ static void exec(const std::string &text, bool verbose) {
         std::string what = kv.kv.empty() ? "" : kv.kv[1].first;  // kv[0] is b=
         g_inc = (int)(kv.u64("inc", 0) % 3);
         auto check_bytes = [&](const std::string &sigtail, const std::string &ctx) {
-            if (bind_multi_eval)
+            if (bind_multi_eval || S_bind_multi_eval)
                 violation("eval:" + sigtail, ctx + ": the accessor evaluated an argument expression more than once (it is a function-like macro that mentions its parameter "
                                                     "twice); with an argument like next(&cursor) it reads one message and writes another");
             if (memcmp(a.mem, a.model.data(), a.size) != 0)
@@ -520,6 +533,7 @@ static void exec(const std::string &text, bool verbose) {
             int how = via == "gen" ? 0 : via == "ded" ? 1 : 2;
             buf_protect(a.raw, a.size, true);
             if (g_pages) per_entry["entry.get.on_read_only_pages"]++;
+            if (g_app_hdrs) per_entry["entry.get.through_bindings_compiled_behind_system_headers"]++;
             DIRTY();
             if (how == 0) got = f->getfield(pdu, fl->field_id);
             else if (how == 1) got = fl->get(pdu);
